@@ -406,6 +406,9 @@ func Generate(profile string, seed uint64, tier string) (*Scenario, error) {
 	case "C07j":
 		sc.Property = "C07"
 		genC07j(g, sc, tier)
+	case "C12h":
+		sc.Property = "C12"
+		genC12h(g, sc, tier)
 	default:
 		return genOther(g, sc, profile, tier)
 	}
@@ -577,6 +580,8 @@ func Execute(sc *Scenario) *Verdict {
 		return RunC11Scenario(sc)
 	case "C15":
 		return RunC15Scenario(sc)
+	case "C12h":
+		return RunC12HTTPScenario(sc)
 	case "C08", "C10", "C17", "C18", "C13j", "C07j":
 		return RunJobScenario(sc)
 	case "C05", "C02c", "C12c", "C13c", "C19c", "C07c":
@@ -2746,4 +2751,80 @@ func genC07j(g *G, sc *Scenario, tier string) {
 		after = append(after, before...)
 	}
 	sc.Ops = append(sc.Ops, run, Op{K: "checkTransformSaw", DS: "sink", N: 0, A: after})
+}
+
+// genC12h: consumers of the HTTP change feed (full and latest-only, page sizes 0-2) keep their tokens across
+// compactions of a dataset whose history has runs of identical versions, some of them at the very end of the log.
+func genC12h(g *G, sc *Scenario, tier string) {
+	sc.Datasets = []string{"dsA"}
+	pool := []string{MkE + "h1", MkE + "h2", MkE + "h3"}[:g.Range(2, 3)]
+	write := func() Op {
+		var ents []Ent
+		for k := g.Range(1, 2); k > 0; k-- {
+			e := Ent{"id": g.Pick(pool), "props": map[string]any{MkS + "v": g.Pick([]string{"a", "b"})}, "refs": map[string]any{}}
+			if g.P(0.15) {
+				e["deleted"] = true
+			}
+			ents = append(ents, e)
+		}
+		return Op{K: "batch", DS: "dsA", Ents: ents}
+	}
+	nCons := g.Range(1, 3)
+	type cons struct {
+		latest bool
+		limit  int
+	}
+	var cs []cons
+	for k := 0; k < nCons; k++ {
+		cs = append(cs, cons{latest: g.P(0.4), limit: g.PickInt([]int{0, 0, 1, 2, 3})})
+	}
+	follow := func(k int) Op {
+		op := Op{K: "follow", DS: "dsA", Reader: k, Latest: cs[k].latest, Limit: cs[k].limit}
+		return op
+	}
+	drain := func() {
+		// every consumer reads until it is at the end (page sizes of one need a few requests)
+		for k := range cs {
+			n := 1
+			if cs[k].limit > 0 {
+				n = 8/cs[k].limit + 2
+			}
+			for ; n > 0; n-- {
+				sc.Ops = append(sc.Ops, follow(k))
+			}
+		}
+	}
+	sc.Ops = append(sc.Ops, write())
+	for n := g.Range(2, 7); n > 0; n-- {
+		switch x := g.Intn(10); {
+		case x < 4:
+			sc.Ops = append(sc.Ops, write())
+		case x < 6:
+			sc.Ops = append(sc.Ops, Op{K: "dup", DS: "dsA", S: g.Pick(pool)})
+		case x < 9:
+			sc.Ops = append(sc.Ops, follow(g.Intn(nCons)))
+		default:
+			sc.Ops = append(sc.Ops, Op{K: "compact", DS: "dsA", N: g.PickInt([]int{1, 2, 100000})})
+		}
+	}
+	if g.P(0.7) {
+		// the log ends in duplicates
+		for k := g.Range(1, 2); k > 0; k-- {
+			sc.Ops = append(sc.Ops, Op{K: "dup", DS: "dsA", S: g.Pick(pool)})
+		}
+	}
+	drain()
+	sc.Ops = append(sc.Ops, Op{K: "compact", DS: "dsA", N: g.PickInt([]int{1, 2, 100000})})
+	if g.P(0.3) {
+		sc.Ops = append(sc.Ops, Op{K: "follow", DS: "dsA", Reader: 9, S: "jsonld"})
+	}
+	for k := range cs {
+		sc.Ops = append(sc.Ops, follow(k))
+	}
+	sc.Ops = append(sc.Ops, write())
+	drain()
+	if g.P(0.5) {
+		sc.Ops = append(sc.Ops, Op{K: "dup", DS: "dsA", S: g.Pick(pool)}, Op{K: "compact", DS: "dsA", N: 1})
+		drain()
+	}
 }
